@@ -338,3 +338,112 @@ def normalize_counting_while(P):
         if n_sites[0] != before:
             f.node.body = body
     return n_sites[0]
+
+
+def unroll_display_loops(P):
+    """`for x in (a, b): BODY` over a short display of plain names / constants is BODY with a, then BODY with b."""
+    import copy
+    n_sites = [0]
+
+    def conv(s_):
+        if not (isinstance(s_, ast.For) and not s_.orelse and isinstance(s_.target, ast.Name) and isinstance(s_.iter, (ast.Tuple, ast.List))):
+            return None
+        elts = s_.iter.elts
+        if not (1 <= len(elts) <= 4) or not all(isinstance(e, (ast.Name, ast.Constant)) or (isinstance(e, ast.Attribute) and isinstance(e.value, ast.Name)) for e in elts):
+            return None
+        v = s_.target.id
+        for b in s_.body:
+            for n in ast.walk(b):
+                if isinstance(n, (ast.Break, ast.Continue, ast.Yield, ast.YieldFrom, ast.FunctionDef, ast.Lambda)):
+                    return None
+                if isinstance(n, ast.Name) and n.id == v and isinstance(n.ctx, (ast.Store, ast.Del)):
+                    return None
+        out = []
+        for e in elts:
+            class Sub(ast.NodeTransformer):
+                def visit_Name(self, n):
+                    if n.id == v and isinstance(n.ctx, ast.Load):
+                        return ast.copy_location(copy.deepcopy(e), n)
+                    return n
+            for b in s_.body:
+                out.append(Sub().visit(copy.deepcopy(b)))
+        n_sites[0] += 1
+        return out
+
+    def rewrite(block):
+        res = []
+        for s_ in block:
+            for fld in ("body", "orelse", "finalbody"):
+                sub = getattr(s_, fld, None)
+                if isinstance(sub, list) and sub and isinstance(sub[0], ast.stmt):
+                    setattr(s_, fld, rewrite(sub))
+            if isinstance(s_, ast.Try):
+                for h in s_.handlers:
+                    h.body = rewrite(h.body)
+            new = conv(s_)
+            if new is not None:
+                res.extend(new)
+            else:
+                res.append(s_)
+        return res
+
+    for f in list(P.funcs.values()):
+        if f.module.is_tools or f.parent is not None:
+            continue
+        if not any(isinstance(n, ast.For) and isinstance(n.iter, (ast.Tuple, ast.List)) for n in ast.walk(f.node)):
+            continue
+        before = n_sites[0]
+        body = rewrite(f.node.body)
+        if n_sites[0] != before:
+            f.node.body = [ast.fix_missing_locations(b) for b in body]
+    return n_sites[0]
+
+
+def normalize_suppress(P):
+    """`with contextlib.suppress(E1, E2): BODY` is `try: BODY except (E1, E2): pass`."""
+    import copy
+    n_sites = [0]
+
+    def conv(s_, f):
+        if not (isinstance(s_, ast.With) and len(s_.items) == 1 and s_.items[0].optional_vars is None and isinstance(s_.items[0].context_expr, ast.Call)):
+            return None
+        c = s_.items[0].context_expr
+        nm = ast.unparse(c.func)
+        imp = f.module.imports.get(nm.split(".")[0])
+        ok = (nm == "contextlib.suppress" and imp is not None and imp[0] == "ext" and imp[1] == "contextlib") or \
+             (nm == "suppress" and imp is not None and imp[0] == "ext" and imp[1] == "contextlib.suppress")
+        if not ok or c.keywords or not c.args:
+            return None
+        typ = copy.deepcopy(c.args[0]) if len(c.args) == 1 else ast.Tuple(elts=[copy.deepcopy(a) for a in c.args], ctx=ast.Load())
+        new = ast.Try(body=s_.body, handlers=[ast.ExceptHandler(type=typ, name=None, body=[ast.Pass()])], orelse=[], finalbody=[])
+        ast.copy_location(new, s_)
+        for x in ast.walk(new):
+            if not hasattr(x, "lineno"):
+                ast.copy_location(x, s_)
+        n_sites[0] += 1
+        return ast.fix_missing_locations(new)
+
+    def rewrite(block, f):
+        res = []
+        for s_ in block:
+            for fld in ("body", "orelse", "finalbody"):
+                sub = getattr(s_, fld, None)
+                if isinstance(sub, list) and sub and isinstance(sub[0], ast.stmt):
+                    setattr(s_, fld, rewrite(sub, f))
+            if isinstance(s_, ast.Try):
+                for h in s_.handlers:
+                    h.body = rewrite(h.body, f)
+            new = conv(s_, f)
+            res.append(new if new is not None else s_)
+        return res
+
+    for f in list(P.funcs.values()):
+        if f.module.is_tools or f.parent is not None:
+            continue
+        if not any(isinstance(n, ast.With) for n in ast.walk(f.node)):
+            continue
+        before = n_sites[0]
+        body = rewrite(f.node.body, f)
+        if n_sites[0] != before:
+            f.node.body = body
+    return n_sites[0]
